@@ -998,7 +998,7 @@ func specSort(t string) string {
 	case "float":
 		return SF
 	}
-	return SInt
+	return SInt // int and the fixed-width Go integer types of bv lemmas
 }
 
 // declareSpec emits the SMT definition of a spec function (and its callees) once.
@@ -1380,6 +1380,9 @@ func (e *Enc) assumeLemma(lm *Lemma) {
 	}
 	ctx := &ExprCtx{e: e, st: e.entry, old: e.entry, bound: bound, pkg: pkg}
 	body := ctx.boolExpr(lm.Body.Expr)
+	if lm.BV {
+		body = Imp(bvParamRanges(lm, bound), body)
+	}
 	if len(binders) == 0 {
 		e.s.decls = append(e.s.decls, "(assert "+body.S+")")
 	} else {
@@ -1410,4 +1413,25 @@ func ifaceVsConcrete(a, b TV) func(e *Enc) T {
 	return func(e *Enc) T {
 		return And(Eq(ia.Tag, e.typeTag(b.Typ)), Eq(ia.Data, e.scalar(b.V)))
 	}
+}
+
+// bvParamRanges: the parameters of a bit-vector lemma range over their Go types.
+func bvParamRanges(lm *Lemma, bound map[string]TV) T {
+	var cs []T
+	for _, p := range lm.Params {
+		w, sg, ok := goIntWidth(p.Typ)
+		if !ok {
+			continue
+		}
+		t, isT := bound[p.Name].V.(T)
+		if !isT {
+			continue
+		}
+		if sg {
+			cs = append(cs, And(Ge(t, IntBig(new(big.Int).Neg(pow2(uint(w-1))))), Lt(t, IntBig(pow2(uint(w-1))))))
+		} else {
+			cs = append(cs, And(Ge(t, IntLit(0)), Lt(t, IntBig(pow2(uint(w))))))
+		}
+	}
+	return And(cs...)
 }
